@@ -67,6 +67,9 @@ def impl_init():
     from pyp0f.net.signatures import TCPPacketSignature
     from pyp0f.options import Options
     from harness import implutil as U
+    from pyp0f.database import Database
+    from pyp0f.fingerprint import fingerprint_tcp
+    shared_db = Database()
 
     def impl(c):
         if "direct" in c:
@@ -93,6 +96,15 @@ def impl_init():
                 sig = TCPSignature.parse(text)
                 m = tcp_signatures_match(sig, ps, Options())
                 out["self_match"] = None if m is None else m.name
+                # ... and the written signature, loaded as a one-record database into the SAME Database object every time, labels the packet
+                if m is not None and ps.ttl >= 1 and int(k.tcp.type) in (2, 0x12) and not k.ip.is_fragment:
+                    sec = "request" if int(k.tcp.type) == 2 else "response"
+                    U.load_db("[tcp:%s]\nlabel = s:unix:Written:x\nsig = %s\n" % (sec, text), shared_db)
+                    try:
+                        r = fingerprint_tcp(k, options=Options(database=shared_db))
+                        out["db_match"] = None if r.match is None else r.match.type.name
+                    except Exception as e:   # noqa
+                        out["db_match"] = type(e).__name__
         return out
     return impl
 
@@ -118,6 +130,8 @@ def judge(c, ir, mr):
                 "judged_by": "C18_layout / C18_quirks"}
     if "self_match" in ir and ir["self_match"] != "EXACT":
         return {"kind": "a signature written from the packet does not match it exactly", "why": str(ir)}
+    if "db_match" in ir and ir["db_match"] != "EXACT":
+        return {"kind": "a signature written from the packet, loaded as a database, does not label that packet", "why": str(ir)[:400]}
     if isinstance(mr, list) and ir["texts"] != mr[:2]:
         return {"kind": "printed text differs from the verified printer (but parses back correctly)", "no_failing_input": True, "why": "impl %s model %s" % ([bytes.fromhex(x).decode() for x in ir["texts"]], [bytes.fromhex(x).decode() for x in mr[:2]]),
                 "judged_by": "C18_layout / C18_quirks (the model printer is proved to be inverted by the parser)"}
